@@ -27,11 +27,19 @@ var (
 	verifYieldQueueFn     func(q *rpcQueue, point int)
 	verifYieldFn          func(point int)
 	verifObserveSendRPCFn func(p peer.ID, out *RPC)
+	verifObservePushFn    func(q *rpcQueue, rpc *RPC, err error)
 )
 
 func verifYield(point int) {
 	if f := verifYieldFn; f != nil {
 		f(point)
+	}
+}
+
+// verifObservePush reports the outcome of every Push / UrgentPush on a peer's outbound queue.
+func verifObservePush(q *rpcQueue, rpc *RPC, err error) {
+	if f := verifObservePushFn; f != nil {
+		f(q, rpc, err)
 	}
 }
 
